@@ -203,7 +203,7 @@ def run(res, ctx):
     if av["mismatches"]:
         res.violation("broken-correspondence", "rust_decimal does not behave like Base/Fit.v fit: %s" % av["examples"],
                       {"theorem_or_projection": "arith validation (dec instance of every theorem)", "examples": av["examples"]}, found_input=False)
-    n = 1000 if tier == "quick" else 6000
+    n = 1000 if tier == "quick" else 30000
     batch = 400
     done = 0
     while done < n:
